@@ -134,8 +134,13 @@ def test_one(args):
     try:
         shutil.copy(os.path.join(d, "new"), os.path.join(w, rel))
         os.utime(os.path.join(w, rel))
-        b = subprocess.run("cd %s && cmake --build _build 2>&1 | tail -5; cmake --build _build --target check 2>&1 | tail -5" % w, shell=True, capture_output=True, text=True, timeout=900)
-        built = "error:" not in b.stdout and "FAILED" not in b.stdout and "warning:" not in b.stdout
+        try:
+            b = subprocess.run("cd %s && timeout 300 cmake --build _build 2>&1 | tail -5; timeout 120 cmake --build _build --target check 2>&1 | tail -5" % w, shell=True, capture_output=True, text=True, timeout=900)
+            built = "error:" not in b.stdout and "FAILED" not in b.stdout and "warning:" not in b.stdout
+        except subprocess.TimeoutExpired:
+            class _B:
+                stdout = "build timeout"
+            b, built = _B(), False
         verdict = {"id": mid, "built": built}
         if not built:
             verdict["tail"] = b.stdout[-300:]
